@@ -210,6 +210,57 @@ def shared_objects(M, rec, rng, reps):
         query(net, rng)
 
 
+def only_duplicates(M, rec, rng, reps):
+    """Valid networks in which ONE element object is used at two places of the same kind (so that
+    condition 1 is the only violated one), for every arrangement the random topologies and
+    construction orders produce (adjacent or interleaved in the library's enumeration)."""
+    from vf import desc as D
+
+    g = G.NetGen(rng)
+    for _ in range(reps):
+        _, desc = g.network()
+        nodes, links, origins, dests = D.make_objects(M, desc)
+        what = rng.choice(("link", "link", "origin", "dest"))
+        if what == "link" and len(desc["links"]) >= 2:
+            a, b = rng.sample([l["id"] for l in desc["links"]], 2)
+            links[b] = links[a]
+        elif what == "origin":
+            cands = [o for o in desc["origins"]]
+            pairs = [(x, y) for x in cands for y in cands if x is not y and x["kind"] == y["kind"]]
+            if not pairs:
+                continue
+            x, y = rng.choice(pairs)
+            origins[y["id"]] = origins[x["id"]]
+        elif what == "dest" and len(desc["dests"]) >= 2:
+            a, b = rng.sample([d["id"] for d in desc["dests"]], 2)
+            dests[b] = dests[a]
+        else:
+            continue
+        net = M.Network()
+        ops = D.random_ops(desc, rng)
+        linkd = {l["id"]: l for l in desc["links"]}
+        orgd = {o["id"]: o for o in desc["origins"]}
+        dstd = {d["id"]: d for d in desc["dests"]}
+        for op in ops:
+            k = op[0]
+            if k == "node":
+                net.add_node(nodes[op[1]])
+            elif k == "nodes":
+                net.add_nodes([nodes[n] for n in op[1]])
+            elif k in ("link", "path"):
+                l = linkd[op[1]]
+                net.add_link(nodes[l["up"]], links[op[1]], nodes[l["down"]])
+            elif k == "links":
+                net.add_links([(nodes[linkd[i]["up"]], links[i], nodes[linkd[i]["down"]]) for i in op[1]])
+            elif k == "origin":
+                net.add_origin(origins[op[1]], nodes[orgd[op[1]]["node"]])
+            elif k == "dest":
+                net.add_destination(dests[op[1]], nodes[dstd[op[1]]["node"]])
+        rec.count("only_duplicate_graphs")
+        rec.seen("duplicate_kinds", what)
+        query(net, rng)
+
+
 def random_graphs(M, rec, rng, reps):
     g = G.NetGen(rng)
     for _ in range(reps):
@@ -295,12 +346,14 @@ def run(M, rec, tier, seed, k, n):
         if tier == "quick":
             exhaustive(M, rec, rng, 2, 0, 1)
             shared_objects(M, rec, rng, 150)
+            only_duplicates(M, rec, rng, 300)
             random_graphs(M, rec, rng, 800)
             histories(M, rec, rng, 400)
             rec.extra["exhaustive_up_to_nodes"] = 2
         else:
             exhaustive(M, rec, rng, 3, k, n)
             shared_objects(M, rec, rng, 600)
+            only_duplicates(M, rec, rng, 1500)
             random_graphs(M, rec, rng, 4000)
             histories(M, rec, rng, 2500)
             rec.extra["exhaustive_up_to_nodes"] = 3
